@@ -10,6 +10,8 @@ import (
 	goecdsa "crypto/ecdsa"
 	"crypto/elliptic"
 	"crypto/rand"
+	_ "crypto/sha256" // links SHA-256, used by ES256
+	_ "crypto/sha512" // links SHA-384 and SHA-512, used by ES384 and ES512
 	"errors"
 	"fmt"
 	"math/big"
